@@ -600,6 +600,11 @@ def _correspondence(ctx):
         rules.append((r, s, (freq, ds, kw)))
         reqs.append(str_request(r)); exp.append("ok " + hexs(s))
     got = ctx.driver(reqs)
+    # the same requests answered by the SOURCE TRANSLATION of rrule.__str__ (Gen.rruleStr), against str(rule) itself
+    for q, e, g in zip(reqs, exp, ctx.driver([q.replace("rrs.str ", "rrsgen.str ", 1) for q in reqs])):
+        if e != g:
+            ctx.mismatch("rrsgen.str (translated rrule.__str__ vs str(rule))", q, e, g)
+    ctx.traces += len(reqs)
     ctx.c13_str_mismatch_rules = []
     for q, e, g, rl in zip(reqs, exp, got, rules):
         if e != g:
@@ -631,6 +636,9 @@ def _correspondence(ctx):
         for q, e, g in zip(areqs, aexp, got):
             if e != g:
                 ctx.mismatch("rrs.str (ambient first weekday)", q, e, g)
+        for q, e, g in zip(areqs, aexp, ctx.driver([q.replace("rrs.str ", "rrsgen.str ", 1) for q in areqs])):
+            if e != g:
+                ctx.mismatch("rrsgen.str (translated rrule.__str__, ambient first weekday)", q, e, g)
         got = ctx.driver([q for q, _, _ in aparse])
         for (q, res, k), g in zip(aparse, got):
             if canon_impl(res, g) != g:
